@@ -55,10 +55,10 @@ try:
         run = "-run '^(%s)$'" % "|".join(names)
     elif meths:
         # suite methods: run the package's suite entry point(s) filtered by method name
-        run = "-run . -testify.m '^(%s)$'" % "|".join(n for _, n in meths)
+        run = "-run . -testify.m='^(%s)$'" % "|".join(n for _, n in meths)
     else:
         run = ""
-    democmd = "go test -vet=off -count=1 -timeout 20m %s ./%s/ 2>&1 | tail -40" % (run, place)
+    democmd = "go test -vet=off -count=1 -timeout 20m ./%s/ %s 2>&1 | tail -40" % (place, run)
 
     # without patch
     put_demo()
